@@ -40,6 +40,7 @@ type Ctx struct {
 	known   []string
 	digest  uint64
 	sample  []string
+	T       *testing.T // the sub-test of this run (back end B needs it for synctest.Test)
 	Replay  bool
 	SimTime int64 // virtual nanoseconds covered (back end B) — steps are reported separately
 }
@@ -211,6 +212,7 @@ func Main(t *testing.T, scens map[string]Scenario) {
 		ctx := &Ctx{C: c, Cfg: cfg, Prop: env("VW_PROP", ""), Replay: replay}
 		c.Limit = 200000
 		okRun := t.Run(fmt.Sprintf("r%d", run), func(t *testing.T) {
+			ctx.T = t
 			sc(ctx)
 		})
 		if !okRun && ctx.viol == nil {
